@@ -68,3 +68,371 @@ def temperature_rows(pkg: Optional[Package] = None) \
         rows[(el.elts[0].id, el.elts[1].id)] = (literal(el.elts[2]),
                                                 literal(el.elts[3]))
     return rows
+
+
+# ===========================================================================
+# The catalogue as a client program of the declaration contracts (C20):
+# predefined.py's module body is evaluated from its AST, every declaration
+# going through the *contract* of new_unit / derive_unit_from / type
+# declaration (scale of `k * p` is k * scale(p); scale of a unit derived from
+# units u_i of the base types is prod scale(u_i) ** e_i; the reference unit of
+# a derived type is the product of the base types' reference units).
+_SUP = {"²": 2, "³": 3, "⁴": 4, "⁵": 5, "⁶": 6, "⁷": 7, "⁸": 8, "⁹": 9}
+_SUP_CH = {v: k for k, v in _SUP.items()}
+
+
+class CatalogError(Exception):
+    pass
+
+
+def term_symbol(items) -> str:
+    """the symbol Term.__str__ generates for a unit term (documented format:
+    positive powers joined by a middle dot, then '/', then negative powers)"""
+    pos, neg = [], []
+    for sym, e in items:
+        parts = sym.split("/")
+        for i, s in enumerate(parts):
+            ee = e if i == 0 else -e
+            tgt = pos if ee > 0 else neg
+            a = abs(ee)
+            tgt.append(s + ("" if a == 1 else _SUP_CH[a]))
+    out = "·".join(pos) if pos else "1"
+    if neg:
+        out += "/" + "·".join(neg)
+    return out
+
+
+class Catalog:
+    def __init__(self, pkg: Optional[Package] = None):
+        self.pkg = pkg or Package(REPO_SRC)
+        self.classes: Dict[str, dict] = {}
+        self.units: Dict[str, dict] = {}      # symbol -> {cls, scale, name, var}
+        self.env: Dict[str, tuple] = {}
+        self.prefixes: Dict[str, int] = {}
+        self.order: List[str] = []
+        self._load_prefixes()
+        self._run()
+
+    # -- si_prefixes.py -------------------------------------------------------
+    def _load_prefixes(self):
+        mi = self.pkg.modules["quantity.si_prefixes"]
+        for name, node in mi.assigns.items():
+            if isinstance(node, ast.Call) and isinstance(node.func, ast.Name) \
+                    and node.func.id == "SIPrefix" and len(node.args) == 3:
+                self.prefixes[name] = int(literal(node.args[2]))
+        ci = mi.classes["SIPrefix"]
+        fac = ci.funcs["factor"].node
+        ret = [n for n in ast.walk(fac) if isinstance(n, ast.Return)]
+        ok = len(ret) == 1 and isinstance(ret[0].value, ast.BinOp) and \
+            isinstance(ret[0].value.op, ast.Pow) and \
+            ast.dump(ret[0].value.left) == ast.dump(ast.parse(
+                "Decimal(10)").body[0].value) and \
+            ast.dump(ret[0].value.right) == ast.dump(ast.parse(
+                "self.exp").body[0].value)
+        self.prefix_factor_is_power_of_ten = ok
+
+    # -- predefined.py --------------------------------------------------------
+    def dims_of(self, cname) -> Dict[str, int]:
+        c = self.classes[cname]
+        if c["define_as"] is None:
+            return {cname: 1}
+        out: Dict[str, int] = {}
+        for bn, e in c["define_as"]:
+            for k, ee in self.dims_of(bn).items():
+                out[k] = out.get(k, 0) + ee * e
+        return {k: v for k, v in out.items() if v}
+
+    def ev(self, e: ast.expr):
+        if isinstance(e, ast.Name):
+            if e.id in self.env:
+                return self.env[e.id]
+            if e.id in self.prefixes:
+                return ("prefix", self.prefixes[e.id])
+            raise CatalogError(f"unknown name {e.id}")
+        if isinstance(e, ast.Attribute) and isinstance(e.value, ast.Name) and \
+                e.attr == "ref_unit" and e.value.id in self.classes:
+            ru = self.classes[e.value.id]["ref"]
+            return ("unit", ru) if ru else ("none",)
+        if isinstance(e, ast.BinOp):
+            if isinstance(e.op, (ast.Mult, ast.Div, ast.Pow)):
+                try:
+                    return ("num", literal(e))
+                except ValueError:
+                    pass
+            a, b = self.ev(e.left), self.ev(e.right)
+            if isinstance(e.op, ast.Pow) and a[0] == "cls" and b[0] == "num":
+                return ("clsterm", [(a[1], int(b[1]))])
+            if isinstance(e.op, ast.Pow) and a[0] == "clsterm" and b[0] == "num":
+                return ("clsterm", [(n, x * int(b[1])) for n, x in a[1]])
+            if isinstance(e.op, (ast.Mult, ast.Div)) and \
+                    a[0] in ("cls", "clsterm") and b[0] in ("cls", "clsterm"):
+                la = a[1] if a[0] == "clsterm" else [(a[1], 1)]
+                lb = b[1] if b[0] == "clsterm" else [(b[1], 1)]
+                sgn = 1 if isinstance(e.op, ast.Mult) else -1
+                return ("clsterm", la + [(n, x * sgn) for n, x in lb])
+            if isinstance(e.op, ast.Mult) and a[0] in ("num", "prefix") and \
+                    b[0] == "unit":
+                k = a[1] if a[0] == "num" else Fraction(10) ** a[1]
+                return ("qty", k, b[1])
+            raise CatalogError(f"unsupported expression {ast.dump(e)[:80]}")
+        if isinstance(e, ast.Call) and isinstance(e.func, ast.Name) and \
+                e.func.id == "Term" and len(e.args) == 1:
+            items = []
+            for it in e.args[0].elts:
+                u = self.ev(it.elts[0])
+                items.append((u[1], int(literal(it.elts[1]))))
+            return ("unitterm", items)
+        if isinstance(e, ast.Constant) and isinstance(e.value, str):
+            return ("str", e.value)
+        if isinstance(e, ast.Constant) and e.value is None:
+            return ("none",)
+        try:
+            return ("num", literal(e))
+        except ValueError:
+            raise CatalogError(f"unsupported expression {ast.dump(e)[:80]}")
+
+    def new_unit(self, cname, symbol, name, scale, var=None, definition=""):
+        if symbol in self.units:
+            raise CatalogError(f"duplicate symbol {symbol}")
+        self.units[symbol] = dict(cls=cname, scale=scale, name=name, var=var,
+                                  definition=definition)
+        self.order.append(symbol)
+        return symbol
+
+    def _run(self):
+        mi = self.pkg.modules["quantity.predefined"]
+        for st in mi.tree.body:
+            if isinstance(st, ast.ClassDef):
+                self._class(st)
+            elif isinstance(st, ast.Assign) and len(st.targets) == 1 and \
+                    isinstance(st.targets[0], ast.Name):
+                self._assign(st.targets[0].id, st.value)
+
+    def _class(self, st: ast.ClassDef):
+        kw = {k.arg: k.value for k in st.keywords}
+        define_as = None
+        if "define_as" in kw:
+            t = self.ev(kw["define_as"])
+            define_as = t[1] if t[0] == "clsterm" else [(t[1], 1)]
+        sym = self.ev(kw["ref_unit_symbol"])[1] if "ref_unit_symbol" in kw \
+            else None
+        name = self.ev(kw["ref_unit_name"])[1] if "ref_unit_name" in kw else None
+        quantum = self.ev(kw["quantum"])[1] if "quantum" in kw else None
+        self.classes[st.name] = dict(define_as=define_as, ref=None,
+                                     quantum=quantum)
+        self.env[st.name] = ("cls", st.name)
+        ref_def = None
+        if define_as is not None:
+            refs = [self.classes[bn]["ref"] for bn, _ in define_as]
+            if all(refs):
+                ref_def = [(r, e) for r, (_, e) in zip(refs, define_as)]
+        if not sym and ref_def is not None:
+            sym = term_symbol(ref_def)
+        if sym:
+            # reference unit: scale 1 by definition; for a derived type it is
+            # the product of the base types' reference units (all scale 1)
+            self.classes[st.name]["ref"] = self.new_unit(
+                st.name, sym, name, Fraction(1),
+                definition="" if ref_def is None else term_symbol(ref_def))
+
+    def _assign(self, var, value):
+        if isinstance(value, ast.Attribute) and value.attr == "ref_unit":
+            v = self.ev(value)
+            self.env[var] = v
+            if v[0] == "unit":
+                self.units[v[1]]["var"] = var
+            return
+        if not (isinstance(value, ast.Call) and
+                isinstance(value.func, ast.Attribute) and
+                isinstance(value.func.value, ast.Name) and
+                value.func.value.id in self.classes):
+            return
+        cname, meth = value.func.value.id, value.func.attr
+        kws = {k.arg: self.ev(k.value) for k in value.keywords}
+        if meth == "new_unit":
+            args = [self.ev(a) for a in value.args]
+            sym = args[0][1]
+            name = args[1][1] if len(args) > 1 else None
+            d = args[2] if len(args) > 2 else kws.get("define_as", ("none",))
+            if d[0] == "qty":
+                k, p = d[1], d[2]
+                if self.units[p]["cls"] != cname:
+                    raise CatalogError(f"{sym}: equivalent of another type")
+                scale = k * self.units[p]["scale"]
+                definition = f"{k}·{p}"
+            elif d[0] == "unitterm":
+                scale = Fraction(1)
+                dims: Dict[str, int] = {}
+                for u, e in d[1]:
+                    scale *= self.units[u]["scale"] ** e
+                    for kk, ee in self.dims_of(self.units[u]["cls"]).items():
+                        dims[kk] = dims.get(kk, 0) + ee * e
+                if {k: v for k, v in dims.items() if v} != self.dims_of(cname):
+                    raise CatalogError(f"{sym}: term of another dimension")
+                definition = term_symbol(d[1])
+            elif d[0] == "none":
+                scale, definition = None, ""
+            else:
+                raise CatalogError(f"{sym}: definition {d!r}")
+            self.env[var] = ("unit", self.new_unit(cname, sym, name, scale, var,
+                                                   definition))
+        elif meth == "derive_unit_from":
+            args = [self.ev(a) for a in value.args]
+            cdef = self.classes[cname]["define_as"]
+            if cdef is None or len(cdef) != len(args):
+                raise CatalogError(f"{var}: wrong number of base units")
+            scale = Fraction(1)
+            items = []
+            for (bn, e), a in zip(cdef, args):
+                if a[0] != "unit" or self.units[a[1]]["cls"] != bn:
+                    raise CatalogError(f"{var}: base unit of another type")
+                scale *= self.units[a[1]]["scale"] ** e
+                items.append((a[1], e))
+            sym = kws["symbol"][1] if "symbol" in kws else term_symbol(items)
+            name = kws["name"][1] if "name" in kws else None
+            self.env[var] = ("unit", self.new_unit(cname, sym, name, scale, var,
+                                                   term_symbol(items)))
+
+
+def frac(s: str) -> Fraction:
+    return Fraction(s)
+
+
+def doc_rows(pkg: Package) -> List[dict]:
+    """rows of the unit tables in the module docstring of predefined.py"""
+    mi = pkg.modules["quantity.predefined"]
+    doc = ast.get_docstring(mi.tree, clean=False) or ""
+    rows, cols, state = [], None, 0
+    for line in doc.splitlines():
+        if line.startswith("======"):
+            if state == 0:
+                cols = [(m.start(), m.end()) for m in
+                        __import__("re").finditer(r"=+", line)]
+                state = 1
+            elif state == 1:
+                state = 2
+            else:
+                state = 0
+            continue
+        if state == 1:
+            header = [line[a:b].strip() for a, b in cols[:-1]] + \
+                [line[cols[-1][0]:].strip()]
+            continue
+        if state == 2 and line.strip():
+            cells = [line[a:b].strip() for a, b in cols[:-1]] + \
+                [line[cols[-1][0]:].strip()]
+            rows.append(dict(zip(header, cells), _header=header))
+    return rows
+
+
+def parse_unit_term(s: str, scale_of) -> Fraction:
+    """value of a definition like '0.001·kg', 'mi/s²', 'kW·h', 'mm³'"""
+    def factor(tok: str) -> Fraction:
+        e = 1
+        while tok and tok[-1] in _SUP:
+            e, tok = _SUP[tok[-1]], tok[:-1]
+        try:
+            return Fraction(tok) ** e
+        except ValueError:
+            return scale_of(tok) ** e
+    num, _, den = s.partition("/")
+    v = Fraction(1)
+    for tok in num.split("·"):
+        if tok and tok != "1":
+            v *= factor(tok)
+    if den:
+        for tok in den.split("·"):
+            v /= factor(tok)
+    return v
+
+
+def catalogue_obligations(pkg: Optional[Package] = None) -> List[Tuple[str, bool, str]]:
+    """ground obligations of C20, one per unit / prefix / documentation row"""
+    import json
+    pkg = pkg or Package(REPO_SRC)
+    here = os.path.dirname(os.path.dirname(os.path.abspath(__file__)))
+    table = json.load(open(os.path.join(here, "spec", "si_units.json"),
+                           encoding="utf-8"))
+    out: List[Tuple[str, bool, str]] = []
+    try:
+        cat = Catalog(pkg)
+    except (CatalogError, KeyError, ValueError) as e:
+        return [("catalogue/evaluable-as-client-of-the-declaration-contracts",
+                 False, f"{type(e).__name__}: {e}")]
+    n_units = 0
+    for cname, entry in table.items():
+        if cname.startswith("_") or cname in ("dimensions", "quantum",
+                                              "si_prefixes"):
+            continue
+        c = cat.classes.get(cname)
+        out.append((f"type/{cname}/declared", c is not None, ""))
+        if c is None:
+            continue
+        out.append((f"type/{cname}/dimension",
+                    cat.dims_of(cname) == table["dimensions"][cname],
+                    f"{cat.dims_of(cname)}"))
+        out.append((f"type/{cname}/reference-unit", c["ref"] == entry["ref"],
+                    f"{c['ref']}"))
+        q = table["quantum"].get(cname)
+        out.append((f"type/{cname}/quantum",
+                    (c["quantum"] is None) if q is None
+                    else c["quantum"] == frac(q), f"{c['quantum']}"))
+        for sym, val in entry["units"].items():
+            n_units += 1
+            u = cat.units.get(sym)
+            ok = u is not None and u["cls"] == cname and \
+                (u["scale"] is None if val is None else u["scale"] == frac(val))
+            out.append((f"unit/{sym}/scale", ok,
+                        "missing" if u is None else f"{u['cls']} {u['scale']}"))
+    extra = sorted(set(cat.units) - {s for k, e in table.items()
+                                     if isinstance(e, dict) and "units" in e
+                                     for s in e["units"]})
+    out.append(("catalogue/no-unit-outside-the-reference-table", not extra,
+                f"{extra}"))
+    # compound units = product of their components
+    for sym, u in cat.units.items():
+        if u["definition"] and u["scale"] is not None and \
+                not u["definition"][0].isdigit():
+            try:
+                v = parse_unit_term(u["definition"],
+                                    lambda s: cat.units[s]["scale"])
+                out.append((f"unit/{sym}/product-of-components",
+                            v == u["scale"], f"{u['definition']} = {v}"))
+            except Exception as e:
+                out.append((f"unit/{sym}/product-of-components", False, str(e)))
+    # prefixes
+    for name, exp in table["si_prefixes"].items():
+        out.append((f"prefix/{name}", cat.prefixes.get(name) == exp,
+                    f"{cat.prefixes.get(name)}"))
+    out.append(("prefix/no-other-prefix",
+                set(cat.prefixes) == set(table["si_prefixes"]), ""))
+    out.append(("prefix/factor-is-ten-to-the-exponent",
+                cat.prefix_factor_is_power_of_ten, ""))
+    # documentation tables
+    rows = doc_rows(pkg)
+    seen = set()
+    for r in rows:
+        sym = r.get("Symbol")
+        eq_key = [k for k in r["_header"] if k.startswith("Equivalent in")]
+        if not sym or not eq_key:
+            continue
+        seen.add(sym)
+        u = cat.units.get(sym)
+        try:
+            ok = u is not None and frac(r[eq_key[0]]) == u["scale"]
+        except ValueError:
+            ok = False
+        out.append((f"doc/{sym}/equivalent", ok, r[eq_key[0]]))
+        d = r.get("Definition", "")
+        try:
+            v = parse_unit_term(d, lambda s: cat.units[s]["scale"])
+            out.append((f"doc/{sym}/definition", u is not None and
+                        v == u["scale"], d))
+        except Exception as e:
+            out.append((f"doc/{sym}/definition", False, f"{d}: {e}"))
+    documented = {s for s, u in cat.units.items()
+                  if u["scale"] is not None and
+                  cat.classes[u["cls"]]["ref"] != s}
+    out.append(("doc/every-non-reference-unit-is-tabulated",
+                documented <= seen, f"{sorted(documented - seen)}"))
+    return out
